@@ -88,14 +88,39 @@ def universe_for(arity, tier):
     return SUB20
 
 
-def op_table(op, tier, max_arity):
-    """-> dict sig tuple (of type reprs) -> outcome of Operator.return_type"""
+def op_table(op, tier, max_arity, reverse=False):
+    """-> dict sig tuple (of type reprs) -> outcome of Operator.return_type.
+    ``reverse`` enumerates the tuples in the opposite order: the outcome must not depend on
+    which calls were made before (e.g. through a cache keyed too coarsely)."""
     tab = {}
-    for ar in arities(op, max_arity):
+    for ar in (reversed(arities(op, max_arity)) if reverse else arities(op, max_arity)):
         uni = universe_for(ar, tier)
-        for sig in itertools.product(uni, repeat=ar):
+        sigs = itertools.product(uni[::-1] if reverse else uni, repeat=ar)
+        for sig in sigs:
             tab[tuple(tname(t) for t in sig)] = outcome(lambda s=sig: op.return_type(list(s)))
     return tab
+
+
+def declared_instances(op):
+    """every declared signature with concrete argument types: generic Int/Float -> Int64/Float64,
+    the type variable -> Int64 / String / Bool; const parameters const"""
+    out = []
+    for sig in op.signatures:
+        for tv in (Int64(), String(), Bool()):
+            args = []
+            for p in list(sig.types) + ([sig.types[-1]] if sig.is_vararg else []):
+                base = ptypes.without_const(p)
+                if isinstance(base, ptypes.Tyvar):
+                    base = tv
+                elif type(base) is Int:
+                    base = Int64()
+                elif type(base) is Float:
+                    base = Float64()
+                args.append(ptypes.Const(base) if ptypes.is_const(p) else base)
+            out.append((sig, args))
+            if not any(isinstance(ptypes.without_const(p), ptypes.Tyvar) for p in sig.types):
+                break
+    return out
 
 
 def digest(tab):
@@ -159,6 +184,20 @@ def check_op(opname, op, tier, stats):
     for sig, out in tab.items():
         if out.startswith("EXC:"):
             vs.append(viol("total", opname, sig, out, {}))
+    # (1a) every declared signature is accepted with the declared result family (asked last, after
+    # the whole table was computed, and looked up in the table as well)
+    for sg, args in declared_instances(op):
+        key = tuple(tname(t) for t in args)
+        now = outcome(lambda a=args: op.return_type(list(a)))
+        stats["declared_signatures"] += 1
+        for label, out in (("direct", now), ("table", tab.get(key))):
+            if out is None:
+                continue
+            if not out.startswith("T:"):
+                vs.append(viol("declared-signature-accepted", opname, key, f"{label}:{out}", {}))
+            elif "Tyvar" not in repr(sg.return_type) and \
+                    family(sg.return_type) != (family(BY_NAME[out[2:]]) if out[2:] in BY_NAME else out[2:]):
+                vs.append(viol("declared-return-family", opname, key, f"{label}:{out[2:]}", {"declared": repr(sg.return_type)}))
     # (1b) real ColFn construction agrees (arity <= 2, and arity 3 over the sub-universe)
     for sig, out in tab.items():
         if len(sig) > 2 and tier != "thorough":
@@ -256,7 +295,8 @@ def run_task(task, tier):
             tab, v = check_op(name, op, tier, stats)
             vs.extend(v)
         else:
-            tab = op_table(op, "quick", 2)
+            # the other processes enumerate in reverse order (and with another hash seed)
+            tab = op_table(op, "quick", 2, reverse=True)
             stats["states"] += len(tab)
             stats["transitions"] += len(tab)
         digests[name] = digest({k: v for k, v in tab.items() if len(k) <= 2})
@@ -312,8 +352,9 @@ def describe(tier):
         "invariants": ["outcome in {return type, DataTypeError} for Operator.return_type and for ColFn construction",
                        "sized int/float/decimal accepted wherever the generic type is, same result family",
                        "const accepted wherever non-const is", "parameters declared const by every overload reject non-const arguments",
+                       "every declared signature (generic -> Int64/Float64, S -> Int64/String/Bool) is accepted with the declared result family",
                        "same outcome table with signatures permuted (all permutations for <= 4 signatures, rotations + reversal above)",
-                       f"same outcome table in {len(HASHSEEDS)} processes with different PYTHONHASHSEED"],
+                       f"same outcome table in {len(HASHSEEDS)} processes with different PYTHONHASHSEED that enumerate the tuples in reverse order (outcome independent of call history)"],
         "regime": "exhaustive over operators x type tuples",
         "assumptions": ["read-only use of the operator catalogue (ops namespace, Operator.return_type)"],
     }
